@@ -432,10 +432,19 @@ func genConsCase(r *Rand, tier string, w *bufio.Writer) {
 		return -1
 	}
 	nv := 1 + r.Intn(7)
+	// "slow quorum" style: four equal validators of which two are slow, so that no quorum forms without
+	// a slow one and the slow validators' roots jump over frames (shape of corpus/cons/slow-validators-seal.ops)
+	slowQuorum := r.Chance(1, 6)
+	if slowQuorum {
+		nv = 4
+	}
 	ids := make([]uint64, nv)
 	ws := make([]uint64, nv)
 	perm := r.Perm(20)
 	wkind := r.Intn(5)
+	if slowQuorum {
+		wkind = 0
+	}
 	var total uint64
 	for i := range ids {
 		ids[i] = uint64(1 + perm[i])
@@ -457,7 +466,7 @@ func genConsCase(r *Rand, tier string, w *bufio.Writer) {
 	// quorum forms without it; when it is also the lagging validator its frame-jumping roots are the ones
 	// that decide several frames within one Process call
 	needed := -1
-	if nv >= 2 && total < 1<<29 && r.Chance(1, 2) {
+	if nv >= 2 && total < 1<<29 && !slowQuorum && r.Chance(1, 2) {
 		needed = r.Intn(nv)
 		others := total - ws[needed]
 		ws[needed] = others/2 + 1 + uint64(r.Intn(int(others/2)+1))
@@ -483,11 +492,11 @@ func genConsCase(r *Rand, tier string, w *bufio.Writer) {
 		}
 	}
 	// seals
-	epochs := 1 + r.Intn(3)
+	epochs := 1 + r.Intn(4)
 	_ = epochs
 	sealFrame := map[int]int{}
 	for e := 1; e < epochs; e++ {
-		sealFrame[e] = 1 + r.Intn(5)
+		sealFrame[e] = 1 + r.Intn(6)
 		// mutated or unchanged validator set
 		nws := make([]uint64, nv)
 		for i := range nws {
@@ -499,6 +508,14 @@ func genConsCase(r *Rand, tier string, w *bufio.Writer) {
 		emit("seal %d %d %s", e, sealFrame[e], valsStr(ids, nws))
 	}
 	restartHeavy := r.Chance(1, 8)
+	sparse := r.Chance(1, 3)
+	slowN := 0
+	if nv >= 3 && r.Chance(1, 3) {
+		slowN = 1 + r.Intn(2)
+	}
+	if slowQuorum {
+		slowN = 2
+	}
 	// a lagging validator mostly extends only its own chain and occasionally catches up with everybody:
 	// its roots then jump over several frames (multi-frame roots)
 	lagger := uint64(0)
@@ -576,6 +593,12 @@ func genConsCase(r *Rand, tier string, w *bufio.Writer) {
 	for step := 0; step < maxEv; step++ {
 		// pick creator and parents among events processed by the builder in the current epoch
 		ci := r.Intn(nv)
+		if slowN > 0 {
+			// slow validators create events rarely (and then reference most heads): their roots jump frames
+			for ci < slowN && !r.Chance(1, 8) {
+				ci = r.Intn(nv)
+			}
+		}
 		creator := ids[ci]
 		var selfParent *head
 		if hs := heads[creator]; len(hs) > 0 {
@@ -608,6 +631,18 @@ func genConsCase(r *Rand, tier string, w *bufio.Writer) {
 		np := r.Intn(nv + 1)
 		if r.Chance(1, 3) {
 			np = nv
+		}
+		if slowN > 0 {
+			np = 0
+			for i := 0; i < nv-1; i++ {
+				if !r.Chance(1, 3) {
+					np++
+				}
+			}
+		} else if sparse && selfParent != nil {
+			// sparse gossip: few parents most of the time, an occasional full sync: decisions are delayed by
+			// disagreeing votes and many roots jump over frames
+			np = []int{0, 1, 1, 1, 2, nv}[r.Intn(6)]
 		}
 		if creator == lagger && selfParent != nil {
 			if r.Chance(4, 5) {
